@@ -470,6 +470,12 @@ class DataFile:
     begin_time = tci.to_temporal_offset() - self.start_offset
     if begin_time < 0:
       LOGGER.debug("Skipping subtitle because TCI is less than start time")
+
+      # the following subtitles of a cumulative set do not accumulate onto the subtitle that precedes the skipped one
+
+      if tti.CS in (0x00, 0x01):
+        self.cur_p_element = None
+
       return
     LOGGER.debug("  Time in: %s", tci)
 
